@@ -36,10 +36,11 @@ Section TraceExt.
     gets_ok m_eqb p1 devs cur evs = gets_ok m_eqb p2 devs cur evs.
   Proof.
     induction evs as [|e r IH]; intros cur Hc Hf; [reflexivity|].
-    inversion Hf as [|? ? He Hr]; subst. destruct e as [name k resp|name [v|c]|name k uo|i]; cbn [gets_ok].
+    inversion Hf as [|? ? He Hr]; subst. destruct e as [name k resp|name [v|c]|name k uo|i|i]; cbn [gets_ok].
     - simpl in He. rewrite (@cur_ext k cur He Hc). rewrite (IH cur Hc Hr). reflexivity.
     - destruct (t_routed devs name); [apply IH; simpl; auto|]. rewrite (IH cur Hc Hr). reflexivity.
     - destruct (t_routed devs name); rewrite (IH cur Hc Hr); reflexivity.
+    - apply IH; auto.
     - apply IH; auto.
     - apply IH; auto.
   Qed.
@@ -47,8 +48,9 @@ Section TraceExt.
   Lemma since_ext i k evs : good_mask k -> Forall good_ev evs -> since p1 devs i k evs = since p2 devs i k evs.
   Proof.
     intros Hk. induction evs as [|e r IH]; intros Hf; [reflexivity|].
-    inversion Hf as [|? ? He Hr]; subst. destruct e as [name k0 resp|name [v|c]|name k0 uo|j]; cbn [since]; auto.
+    inversion Hf as [|? ? He Hr]; subst. destruct e as [name k0 resp|name [v|c]|name k0 uo|j|j]; cbn [since]; auto.
     - destruct (t_routed devs name); [|auto]. rewrite (IH Hr). simpl in He. rewrite (@pm_ext k v Hk He). reflexivity.
+    - destruct (Nat.eqb j i); auto.
     - destruct (Nat.eqb j i); auto.
   Qed.
 
@@ -58,13 +60,14 @@ Section TraceExt.
     good_mask k /\ good_cur cur' /\ Forall good_ev rest.
   Proof.
     induction evs as [|e r IH]; intros i cur name k uo cur' rest Hc Hf H; [discriminate|].
-    inversion Hf as [|? ? He Hr]; subst. destruct e as [n k0 resp|n [v|c]|n k0 uo0|j]; cbn [find_open] in H.
+    inversion Hf as [|? ? He Hr]; subst. destruct e as [n k0 resp|n [v|c]|n k0 uo0|j|j]; cbn [find_open] in H.
     - eapply IH; eauto.
     - eapply IH; [|exact Hr|exact H]. destruct (t_routed devs n); simpl; auto.
     - eapply IH; eauto.
     - destruct i as [|i'].
       + inversion H; subst. simpl in He. auto.
       + eapply IH; eauto.
+    - eapply IH; eauto.
     - eapply IH; eauto.
   Qed.
 
